@@ -3,7 +3,7 @@
    specification functions on the implementation's output.
      run --oracle02            <rawhex>                          -> ok | bad:not-well-formed        (Spec/RespS.v wf_response)
      run --oracle04s           <edns> <their|-> <rawU> <rawT>    -> ok | bad:<clause>               (Spec/RespSigS.v pair_check_signed)
-     run --oracle04s-at        <limit> <rawU> <rawT>             -> the same relation under an explicit limit (finding class C04-2 only)
+     run --oracle04s-at        <edns> <their|-> <fit> <rawU> <rawT> -> the same relation, complete response counted as fitting up to <fit> octets (finding class C04-2 only)
      run                       <case line of impl_sig>           -> "oracle-only | <what decides>"  (model column) *)
 open Qvutil
 
@@ -31,9 +31,10 @@ let () = run_lines (fun f ->
   | "--oracle04s", [edns; their; u; t] ->
     let th = if their = "-" then 0 else int_of_string their in
     show_verdict (RespSigS.pair_check_signed (n_of_int th) (n_of_int (int_of_string edns)) (unhex u) (unhex t))
-  | "--oracle04s-at", [limit; u; t] ->
+  | "--oracle04s-at", [edns; their; fit; u; t] ->
     (* only used to delimit the input class of known finding C04-2 (checks/siggen.py finding_c04_2) *)
-    show_verdict (RespSigS.pair_check_signed_at (nat_of_int (int_of_string limit)) (unhex u) (unhex t))
+    let th = if their = "-" then 0 else int_of_string their in
+    show_verdict (RespSigS.pair_check_signed_at (n_of_int th) (n_of_int (int_of_string edns)) (nat_of_int (int_of_string fit)) (unhex u) (unhex t))
   | "", edns :: their :: _ ->
     let lim = if their = "-" then "512" else string_of_int (max 512 (min (int_of_string their) (int_of_string edns))) in
     "oracle-only | wf_response on both responses; pair_check_signed with UDP limit " ^ lim ^ " if the OPT was processed, else 512"
